@@ -538,12 +538,18 @@ def check_case(d):
     d = normalise(d)
     arrays = [build_array(s) for s in d["tensors"]]
     fails, g, how, _ = check_network(d, arrays, d["contract"])
+    # Networks in which a label and its conjugate sit on different tensors are OUTSIDE the
+    # quantifier of C04 ("distinct ... odd-position labels"): there the label word left on the
+    # result may differ between routes by a sign-compensated, algebraically equal word.  Such
+    # label-word-only differences are recorded as information, not as failures.
+    n_out = len([f for f in fails if f[2].get("conj_label_pair") and (f[0].endswith("labels_only") or f[0].endswith("labels_normal_form"))])
+    fails = [f for f in fails if not (f[2].get("conj_label_pair") and (f[0].endswith("labels_only") or f[0].endswith("labels_normal_form")))]
     fp = ("N", d["sym"], d.get("topo"), tuple(spec_fp(s) for s in d["tensors"]), repr(d["legs"]), stable_hash(repr(d["routes"])))
     return {
         "fingerprint": fp,
         "nontrivial": bool(np.any(g.D != 0)),
         "failures": _dedupe(fails)[:6],
-        "sample": {"sym": d["sym"], "topo": d.get("topo"), "legs": d["legs"], "charges": [s["charge"] for s in d["tensors"]], "n_routes": len(d["routes"]), "oracle": how, "result_labels": [list(map(str, l)) for l in g.labels], "nonzero": bool(np.any(g.D != 0))},
+        "sample": {"sym": d["sym"], "topo": d.get("topo"), "legs": d["legs"], "charges": [s["charge"] for s in d["tensors"]], "n_routes": len(d["routes"]), "oracle": how, "result_labels": [list(map(str, l)) for l in g.labels], "nonzero": bool(np.any(g.D != 0)), "label_word_differences_outside_quantifier": n_out},
     }
 
 
